@@ -48,7 +48,7 @@ type Case struct {
 	K           int       `json:"k,omitempty"`
 }
 
-var readFaultKinds = []string{"error", "eof", "error-with-data", "error-with-data-then-eof", "error-then-eof", "error-wrapping-eof", "error-unexpected-eof", "error-wrapping-eof-with-data"}
+var readFaultKinds = []string{"error", "eof", "error-with-data", "error-with-data-then-eof", "error-then-eof", "error-wrapping-eof", "error-unexpected-eof", "error-wrapping-eof-with-data", "error-once-then-continue"}
 
 // a transport failure whose error value wraps io.EOF ("connection lost: EOF"): errors.Is(err, io.EOF) holds, yet
 // it is not the end of the stream (io.Reader signals that with io.EOF itself)
@@ -68,6 +68,7 @@ type faultReader struct {
 	withData    bool // the fault is reported by the Read call that delivers the last bytes before the fault point
 	thenEOF     bool // after the fault has been reported once, further calls return a clean io.EOF (a length-bounded frame)
 	reported    bool
+	transient   bool // the fault is reported ONCE at the fault point, then the reader delivers the rest of the data
 }
 
 func (r *faultReader) Read(p []byte) (int, error) {
@@ -81,6 +82,13 @@ func (r *faultReader) Read(p []byte) (int, error) {
 		}
 	}
 	end := len(r.data)
+	if r.transient && r.limit >= 0 && r.pos >= r.limit {
+		if !r.reported {
+			r.reported = true
+			return 0, r.ferr
+		}
+		r.limit = -1 // recovered: the rest of the stream follows
+	}
 	if r.limit >= 0 && r.limit < end {
 		end = r.limit
 	}
@@ -456,6 +464,9 @@ func run(c *h.Ctx, cs Case) {
 		}
 		r := &faultReader{data: art, limit: k, ferr: ferr, chunk: cs.Chunk}
 		switch cs.FaultKind {
+		case "error-once-then-continue":
+			// a deadline that fires once and is re-armed: the reader fails at the fault point, then carries on
+			r.transient = true
 		case "error-wrapping-eof":
 			r.ferr = errWrappedEOF
 		case "error-wrapping-eof-with-data":
